@@ -9,6 +9,10 @@ import (
 	"bufio"
 	"bytes"
 	"crypto"
+	"crypto/aes"
+	"crypto/cipher"
+	"crypto/des"
+	"crypto/rand"
 	_ "crypto/sha1"
 	_ "crypto/sha256"
 	_ "crypto/sha512"
@@ -23,7 +27,10 @@ import (
 	"sync"
 	"time"
 
+	"golang.org/x/crypto/cast5"
 	"golang.org/x/crypto/openpgp"
+	"golang.org/x/crypto/openpgp/armor"
+	"golang.org/x/crypto/openpgp/elgamal"
 	pgperr "golang.org/x/crypto/openpgp/errors"
 	"golang.org/x/crypto/openpgp/packet"
 	_ "golang.org/x/crypto/ripemd160"
@@ -265,6 +272,7 @@ func (s *scripted) Read(p []byte) (int, error) {
 // ------------------------------------------------------------------ message production / reading
 
 type encSpec struct {
+	nilcfg          bool
 	mode            string // sym | pk | sign
 	rcpt            []string
 	signer          int // 0 none, else pk algo
@@ -280,6 +288,7 @@ type encSpec struct {
 func specOf(o hx.Op, msg []byte) encSpec {
 	s := encSpec{mode: o.Str("mode"), rcpt: o.List("rcpt"), signer: o.Int("signer"), cipher: o.Int("cipher"), comp: o.Int("comp"), hash: o.Int("hash"),
 		binary: o.Int("bin") == 1, name: string(o.Hex("name")), msg: msg, chunks: o.Ints("ch")}
+	s.nilcfg = o.Has("nilcfg") && o.Int("nilcfg") == 1
 	return s
 }
 
@@ -289,6 +298,9 @@ func produce(s encSpec) ([]byte, error) {
 	loadKeys()
 	cfg := &packet.Config{DefaultCipher: packet.CipherFunction(s.cipher), DefaultCompressionAlgo: packet.CompressionAlgo(s.comp), DefaultHash: hashByID[s.hash], Time: fixedTime(1700000000)}
 	hints := &openpgp.FileHints{IsBinary: s.binary, FileName: s.name}
+	if s.nilcfg { // every entry point accepts a nil *packet.Config (AES-128, SHA-256, no compression, time.Now)
+		cfg = nil
+	}
 	var buf bytes.Buffer
 	var w io.WriteCloser
 	var err error
@@ -601,15 +613,36 @@ func run(line string) string {
 		cfg := &packet.Config{DefaultHash: hashByID[o.Int("hash")], Time: fixedTime(int64(o.Int("ct")))}
 		var sigBuf bytes.Buffer
 		var err error
-		if o.Int("text") == 1 {
+		armored := o.Has("armor") && o.Int("armor") == 1
+		switch {
+		case armored && o.Int("text") == 1:
+			err = openpgp.ArmoredDetachSignText(&sigBuf, ent, bytes.NewReader(msg), cfg)
+		case armored:
+			err = openpgp.ArmoredDetachSign(&sigBuf, ent, bytes.NewReader(msg), cfg)
+		case o.Int("text") == 1:
 			err = openpgp.DetachSignText(&sigBuf, ent, bytes.NewReader(msg), cfg)
-		} else {
+		default:
 			err = openpgp.DetachSign(&sigBuf, ent, bytes.NewReader(msg), cfg)
 		}
 		if err != nil {
 			return "err:sign"
 		}
 		raw := sigBuf.Bytes()
+		armRes := ""
+		if armored {
+			text := append([]byte(nil), raw...)
+			blk, err := armor.Decode(bytes.NewReader(text))
+			if err != nil || blk.Type != openpgp.SignatureType || len(blk.Header) != 0 {
+				return "err:armor"
+			}
+			if raw, err = io.ReadAll(blk.Body); err != nil {
+				return "err:armor-body"
+			}
+			armRes = " arm=ok"
+			if _, err := openpgp.CheckArmoredDetachedSignature(ring, bytes.NewReader(msg), bytes.NewReader(text)); err != nil {
+				armRes = " arm=verify-failed"
+			}
+		}
 		p, err := packet.Read(bytes.NewReader(raw))
 		if err != nil {
 			return "err:parse"
@@ -634,7 +667,7 @@ func run(line string) string {
 		if _, err := openpgp.CheckDetachedSignature(ring, bytes.NewReader(append(append([]byte(nil), msg...), 'x')), bytes.NewReader(raw)); err == nil {
 			tampered = "ok"
 		}
-		return fmt.Sprintf("suffix=%s tag=%s body=%s verify=%s tampered=%s", hx.Hex(sig.HashSuffix), hx.Hex(sig.HashTag[:]), hx.Hex(op.Contents[:n]), verify, tampered)
+		return fmt.Sprintf("suffix=%s tag=%s body=%s verify=%s tampered=%s%s", hx.Hex(sig.HashSuffix), hx.Hex(sig.HashTag[:]), hx.Hex(op.Contents[:n]), verify, tampered, armRes)
 	case "enc":
 		msg := hx.NewRand(o.U64("seed")).Bytes(o.Int("n"))
 		if o.Has("msg") {
@@ -716,6 +749,70 @@ func run(line string) string {
 			}
 		}
 		return "accepted=" + hx.JoinStrs(bad)
+	case "keyrt":
+		return keyRT(o)
+	case "elg":
+		loadKeys()
+		msg := hx.NewRand(o.U64("seed")).Bytes(o.Int("n"))
+		priv := dsaEnt.Subkeys[0].PrivateKey.PrivateKey.(*elgamal.PrivateKey)
+		c1, c2, err := elgamal.Encrypt(rand.Reader, &priv.PublicKey, msg)
+		if err != nil {
+			return "err"
+		}
+		got, err := elgamal.Decrypt(priv, c1, c2)
+		if err != nil || !bytes.Equal(got, msg) {
+			return "rt=bad"
+		}
+		return "rt=ok"
+	case "ocfb":
+		r := hx.NewRand(o.U64("seed"))
+		var blk cipher.Block
+		switch o.Int("cipher") {
+		case 2:
+			blk, _ = des.NewTripleDESCipher(r.Bytes(24))
+		case 3:
+			blk, _ = cast5.NewCipher(r.Bytes(16))
+		case 7:
+			blk, _ = aes.NewCipher(r.Bytes(16))
+		case 8:
+			blk, _ = aes.NewCipher(r.Bytes(24))
+		default:
+			blk, _ = aes.NewCipher(r.Bytes(32))
+		}
+		resync := packet.OCFBResyncOption(o.Int("resync") == 1)
+		data := r.Bytes(o.Int("n"))
+		enc, prefix := packet.NewOCFBEncrypter(blk, r.Bytes(blk.BlockSize()), resync)
+		if enc == nil || len(prefix) != blk.BlockSize()+2 {
+			return "err:encrypter"
+		}
+		var ct []byte
+		for _, c := range splitBy(data, o.Ints("ch")) { // any chunking of XORKeyStream
+			out := make([]byte, len(c))
+			enc.XORKeyStream(out, c)
+			ct = append(ct, out...)
+		}
+		dec := packet.NewOCFBDecrypter(blk, append([]byte(nil), prefix...), resync)
+		if dec == nil {
+			return "err:decrypter"
+		}
+		pt := make([]byte, len(ct))
+		dec.XORKeyStream(pt, ct)
+		badPrefix := append([]byte(nil), prefix...)
+		badPrefix[len(badPrefix)-1] ^= 1
+		bad := "nil"
+		if packet.NewOCFBDecrypter(blk, badPrefix, resync) != nil {
+			bad = "accepted"
+		}
+		short := "nil"
+		if packet.NewOCFBDecrypter(blk, prefix[:len(prefix)-1], resync) != nil {
+			short = "accepted"
+		}
+		return fmt.Sprintf("pt=%s bad=%s short=%s", hx.Hex(pt), bad, short)
+	case "ksz":
+		return fmt.Sprintf("ksz=%d", packet.CipherFunction(o.Int("c")).KeySize())
+	case "pka":
+		a := packet.PublicKeyAlgorithm(o.Int("a"))
+		return fmt.Sprintf("enc=%t sign=%t", a.CanEncrypt(), a.CanSign())
 	case "tamper1": // one chosen octet, one chosen mask
 		msg := hx.NewRand(o.U64("seed")).Bytes(o.Int("n"))
 		s := specOf(o, msg)
@@ -752,6 +849,134 @@ func run(line string) string {
 		return "accepted=-"
 	case "gpg":
 		return gpgOp(o)
+	}
+	return "bad-op"
+}
+
+// key material round trips: Serialize / SerializePrivate / NewEntity / SignIdentity → ReadKeyRing (model answer: rt=ok)
+func keyRT(o hx.Op) string {
+	loadKeys()
+	same := func(a, b *openpgp.Entity) bool {
+		if a.PrimaryKey.KeyId != b.PrimaryKey.KeyId || len(a.Identities) != len(b.Identities) || len(a.Subkeys) != len(b.Subkeys) {
+			return false
+		}
+		for n := range a.Identities {
+			if b.Identities[n] == nil {
+				return false
+			}
+		}
+		for i := range a.Subkeys {
+			if a.Subkeys[i].PublicKey.KeyId != b.Subkeys[i].PublicKey.KeyId {
+				return false
+			}
+		}
+		return true
+	}
+	useKey := func(e *openpgp.Entity) bool { // sign with it and encrypt to it, read back
+		var buf bytes.Buffer
+		w, err := openpgp.Encrypt(&buf, []*openpgp.Entity{e}, e, nil, nil)
+		if err != nil {
+			return false
+		}
+		w.Write([]byte("hello"))
+		if w.Close() != nil {
+			return false
+		}
+		md, err := openpgp.ReadMessage(&buf, openpgp.EntityList{e}, nil, nil)
+		if err != nil {
+			return false
+		}
+		b, err := io.ReadAll(md.UnverifiedBody)
+		return err == nil && string(b) == "hello" && md.SignatureError == nil && md.Signature != nil
+	}
+	// Serialize/SerializePrivate/SignIdentity re-sign or append in place: every op works on its own parse
+	fresh := func(n string, i int) *openpgp.Entity {
+		el, err := openpgp.ReadKeyRing(bytes.NewReader(rawKeys[n]))
+		if err != nil {
+			return nil
+		}
+		e := el[i]
+		if e.PrivateKey != nil && e.PrivateKey.Encrypted {
+			e.PrivateKey.Decrypt([]byte("passphrase"))
+		}
+		for _, s := range e.Subkeys {
+			if s.PrivateKey != nil && s.PrivateKey.Encrypted {
+				s.PrivateKey.Decrypt([]byte("passphrase"))
+			}
+		}
+		return e
+	}
+	var e *openpgp.Entity
+	switch o.Str("key") {
+	case "rsa":
+		e = fresh("read.testKeys1And2PrivateHex", 0)
+	case "dsa":
+		e = fresh("read.dsaElGamalTestKeysHex", 0)
+	case "ec":
+		e = fresh("read.p256TestKeyHex", 0)
+	case "new":
+		ne, err := openpgp.NewEntity("n", o.Str("comment"), "e@example.org", &packet.Config{RSABits: 1024})
+		if err != nil {
+			return "err:newentity"
+		}
+		e = ne
+	}
+	var buf bytes.Buffer
+	switch o.Str("kind") {
+	case "ser":
+		if err := e.Serialize(&buf); err != nil {
+			return "err:serialize"
+		}
+		el, err := openpgp.ReadKeyRing(&buf)
+		if err != nil || len(el) != 1 || !same(e, el[0]) || el[0].PrivateKey != nil {
+			return "rt=bad"
+		}
+		// accessors other code depends on
+		pk := el[0].PrimaryKey
+		if pk.KeyIdString() != fmt.Sprintf("%016X", pk.KeyId) || pk.KeyIdShortString() != fmt.Sprintf("%08X", pk.KeyId&0xffffffff) || !pk.CanSign() {
+			return "rt=bad-accessor"
+		}
+		if bl, err := pk.BitLength(); err != nil || bl == 0 {
+			return "rt=bad-bitlength"
+		}
+		if len(el.KeysById(pk.KeyId)) == 0 || len(el.KeysByIdUsage(pk.KeyId, packet.KeyFlagSign)) == 0 || len(el.DecryptionKeys()) != 0 {
+			return "rt=bad-lookup"
+		}
+		return "rt=ok"
+	case "serpriv":
+		if err := e.SerializePrivate(&buf, nil); err != nil {
+			return "err:serializeprivate"
+		}
+		el, err := openpgp.ReadKeyRing(&buf)
+		if err != nil || len(el) != 1 || !same(e, el[0]) || el[0].PrivateKey == nil || el[0].PrivateKey.Encrypted {
+			return "rt=bad"
+		}
+		if !useKey(el[0]) {
+			return "rt=bad-use"
+		}
+		if len(el.DecryptionKeys()) == 0 {
+			return "rt=bad-lookup"
+		}
+		return "rt=ok"
+	case "signid":
+		var id string
+		for n := range e.Identities {
+			id = n
+		}
+		if err := e.SignIdentity(id, rsaEnt, nil); err != nil {
+			return "err:signidentity"
+		}
+		if err := e.Serialize(&buf); err != nil {
+			return "err:serialize"
+		}
+		el, err := openpgp.ReadKeyRing(&buf)
+		if err != nil || len(el) != 1 || len(el[0].Identities[id].Signatures) != 1 {
+			return "rt=bad"
+		}
+		if e.SignIdentity("no such identity", rsaEnt, nil) == nil {
+			return "rt=bad-unknown-identity-accepted"
+		}
+		return "rt=ok"
 	}
 	return "bad-op"
 }
@@ -946,6 +1171,41 @@ func genMdc(g *hx.Gen) {
 	g.Emit("mdc pre=%s data=%s under=%s bufs=%s", hx.Hex(pre), hx.Hex(data), hx.JoinInts(under), hx.JoinInts(bufs))
 }
 
+// table / pair coverage bookkeeping (reported as table.<name>=hit/total and pair.<a>+<b> counters)
+var tableHit = map[string]map[string]bool{}
+var tableSize = map[string]int{"cipher": 5, "compression": 3, "hash": 5, "signer": 3, "mode": 3, "recipients": 4, "name": 6, "sigkind": 4}
+
+func cover(table, entry string) {
+	if tableHit[table] == nil {
+		tableHit[table] = map[string]bool{}
+	}
+	tableHit[table][entry] = true
+}
+
+func pair(g *hx.Gen, a, b string) { g.Stat("pair." + a + "+" + b) }
+
+func sizeClass(n int) string {
+	switch {
+	case n == 0:
+		return "size0"
+	case n < 512:
+		return "size<512"
+	case n < 20000:
+		return "size>=512"
+	}
+	return "sizeL"
+}
+
+func chunkClass(ch []int) string {
+	switch {
+	case len(ch) == 0:
+		return "write1"
+	case len(ch) < 8:
+		return "writeFew"
+	}
+	return "writeMany"
+}
+
 func emitEnc(g *hx.Gen, cmd string, extra string) {
 	r := g.R
 	mode := r.PickStr("sym", "sym", "pk", "pk", "sign")
@@ -975,16 +1235,82 @@ func emitEnc(g *hx.Gen, cmd string, extra string) {
 			rcpt = rcpt[:1] // with several recipients a damaged key packet is survivable by design (the other one decrypts)
 		}
 	}
-	name := r.PickStr("", "f", "file.txt", "_CONSOLE")
+	nameKind := r.PickStr("empty", "short", "file", "console", "max255", "over255")
+	name := map[string]string{"empty": "", "short": "f", "file": "file.txt", "console": "_CONSOLE", "max255": strings.Repeat("m", 255), "over255": strings.Repeat("o", 300)}[nameKind]
+	namelen := len(name)
+	if namelen > 255 {
+		namelen = 255 // SerializeLiteral truncates
+	}
 	hashID := r.PickInt(8, 8, 2, 9, 10, 11)
 	nr := len(rcpt)
 	s := 0
 	if signer != 0 {
 		s = 1
 	}
+	ch := chunking(r, n)
+	// nil *packet.Config: the defaults must coincide with what the model is told
+	if cmd == "enc" && r.Chance(1, 6) {
+		cipher, bs, comp, hashID = 7, 16, 0, 8
+		extra += " nilcfg=1"
+		pair(g, "nilcfg", mode)
+	}
 	g.Stat(cmd + "." + mode)
+	cover("mode", mode)
+	cover("cipher", fmt.Sprint(cipher))
+	cover("compression", fmt.Sprint(comp))
+	cover("hash", fmt.Sprint(hashID))
+	cover("name", nameKind)
+	if signer != 0 {
+		cover("signer", fmt.Sprint(signer))
+		pair(g, fmt.Sprintf("signer%d", signer), fmt.Sprintf("hash%d", hashID))
+		pair(g, fmt.Sprintf("signer%d", signer), mode)
+	}
+	if mode == "pk" {
+		cover("recipients", strings.Join(rcpt, ","))
+		pair(g, "rcpt="+strings.Join(rcpt, ","), fmt.Sprintf("signer%d", signer))
+		pair(g, "rcpt="+strings.Join(rcpt, ","), fmt.Sprintf("cipher%d", cipher))
+	}
+	if mode == "sym" {
+		pair(g, fmt.Sprintf("cipher%d", cipher), fmt.Sprintf("comp%d", comp))
+	}
+	pair(g, mode, sizeClass(n))
+	pair(g, sizeClass(n), chunkClass(ch))
+	pair(g, mode, "name-"+nameKind)
 	g.Emit("%s mode=%s rcpt=%s nrcpt=%d signer=%d signed=%d cipher=%d bs=%d comp=%d hash=%d bin=%d name=%s namelen=%d ch=%s n=%d seed=%d%s",
-		cmd, mode, hx.JoinStrs(rcpt), nr, signer, s, cipher, bs, comp, hashID, r.Intn(2), hx.Hex([]byte(name)), len(name), hx.JoinInts(chunking(r, n)), n, r.U64()>>1, extra)
+		cmd, mode, hx.JoinStrs(rcpt), nr, signer, s, cipher, bs, comp, hashID, r.Intn(2), hx.Hex([]byte(name)), namelen, hx.JoinInts(ch), n, r.U64()>>1, extra)
+}
+
+// op families for the remaining exported entry points
+func genApi(g *hx.Gen) {
+	r := g.R
+	switch r.Intn(5) {
+	case 0:
+		key, kind := r.PickStr("rsa", "rsa", "dsa", "ec", "new"), r.PickStr("ser", "ser", "serpriv", "signid")
+		if key == "ec" { // the P-256 seed is the public key only (its private ECDH subkey cannot be re-serialised)
+			kind = "ser"
+		}
+		g.Stat("keyrt." + kind + "." + key)
+		g.Emit("keyrt key=%s kind=%s comment=%s", key, kind, r.PickStr("c", "", "x"))
+	case 1:
+		loadKeys()
+		plen := (dsaEnt.Subkeys[0].PublicKey.PublicKey.(*elgamal.PublicKey).P.BitLen() + 7) / 8
+		n := r.PickInt(0, 1, 16, plen-12, plen-11, plen-10, plen, r.Range(0, plen+5))
+		g.Stat("elg")
+		g.Emit("elg plen=%d n=%d seed=%d", plen, n, r.U64()>>1)
+	case 2:
+		n := r.PickInt(0, 1, 7, 8, 9, 15, 16, 17, r.Range(0, 200))
+		c := r.PickInt(2, 3, 7, 8, 9)
+		rs := r.Intn(2)
+		g.Stat("ocfb")
+		pair(g, fmt.Sprintf("ocfb.cipher%d", c), fmt.Sprintf("resync%d", rs))
+		g.Emit("ocfb cipher=%d resync=%d n=%d ch=%s seed=%d", c, rs, n, hx.JoinInts(chunking(r, n)), r.U64()>>1)
+	case 3:
+		g.Stat("ksz")
+		g.Emit("ksz c=%d", r.PickInt(0, 1, 2, 3, 4, 7, 8, 9, 10, 255, r.Intn(256)))
+	default:
+		g.Stat("pka")
+		g.Emit("pka a=%d", r.PickInt(0, 1, 2, 3, 16, 17, 18, 19, 20, 255, r.Intn(256)))
+	}
 }
 
 // single chosen modifications: the two that silently switch the protection off (findings), and controls
@@ -1053,14 +1379,25 @@ func gen(g *hx.Gen) {
 				msg = r.Bytes(r.Range(0, 300))
 			}
 			g.Stat(fmt.Sprintf("dsig.pk=%d", pk))
-			g.Emit("dsig text=%d pk=%d hash=%d ct=%d iss=%d msg=%s", r.Intn(2), pk, r.PickInt(2, 8, 9, 10, 11), r.Range(1, 1<<31-1), entByAlgo(pk).PrivateKey.KeyId, hx.Hex(msg))
-		case k < 38:
+			text, arm, hid := r.Intn(2), r.Intn(2), r.PickInt(2, 8, 9, 10, 11)
+			cover("sigkind", fmt.Sprintf("text%d-armor%d", text, arm))
+			cover("hash", fmt.Sprint(hid))
+			cover("signer", fmt.Sprint(pk))
+			pair(g, fmt.Sprintf("dsig.signer%d", pk), fmt.Sprintf("hash%d", hid))
+			pair(g, fmt.Sprintf("dsig.text%d", text), fmt.Sprintf("armor%d", arm))
+			g.Emit("dsig text=%d armor=%d pk=%d hash=%d ct=%d iss=%d msg=%s", text, arm, pk, hid, r.Range(1, 1<<31-1), entByAlgo(pk).PrivateKey.KeyId, hx.Hex(msg))
+		case k < 36:
 			emitEnc(g, "enc", "")
+		case k < 38:
+			genApi(g)
 		case k < 39:
 			emitEnc(g, "tamper", fmt.Sprintf(" max=%d", g.Count(120, 100000)))
 		default:
 			genTamper1(g)
 		}
+	}
+	for t, total := range tableSize {
+		g.StatN(fmt.Sprintf("table.%s=%d/%d", t, len(tableHit[t]), total), 1)
 	}
 	if g.Thorough() {
 		for i := 0; i < 400; i++ {
